@@ -1,7 +1,125 @@
-//! C05: not built yet.
-use anyhow::{bail, Result};
-use serde_json::Value;
+//! C05: VersionGraph::{resolve, get, apply_diffs} (module compiled in from /repo/src/version_graph.rs).
+//!
+//! ops  {"op":"graph","files":[{"name":s,"lines":[..] | "tree":tree | "diff":diff}..] (creation order),"lookups":[s..]}
+//!        -> {"done":true,"listing":[names as read_dir returned them],"resolve":b,
+//!            "get":{name:{ok,v:[split,version]}},"depth":{version:n},"apply":{version:{ok,v:tree}}}
+use std::path::PathBuf;
+use anyhow::{Context, Result};
+use rand::rngs::StdRng;
+use rand::seq::SliceRandom;
+use rand::{Rng, SeedableRng};
+use serde_json::{json, Map, Value};
+use quill::tree::mappings::Mappings;
+use quill::tree::mappings_diff::MappingsDiff;
+use crate::gen_quill::*;
+use crate::proj_quill::*;
+use crate::version_graph::{Split, VersionGraph};
+use super::res_tree;
 
-pub fn exec(_v: &Value) -> Result<Value> { bail!("C05: driver not built") }
+fn file_text(f: &Value) -> Result<String> {
+	if let Some(l) = f.get("lines") { return lines_to_text(l); }
+	if let Some(t) = f.get("tree") { if !t.is_null() && t.get("ns").is_some() { return quill::tiny_v2::write_string(&json_to_tree::<2, Ns>(t)?); } }
+	if let Some(d) = f.get("diff") { if !d.is_null() && d.get("info").is_some() { return lines_to_text(&diff_to_lines(d)?); } }
+	Ok(String::new())
+}
 
-pub fn gen(_seed: u64, _n: usize) -> Result<Vec<Value>> { bail!("C05: driver not built") }
+pub fn exec(v: &Value) -> Result<Value> {
+	static CTR: std::sync::atomic::AtomicUsize = std::sync::atomic::AtomicUsize::new(0);
+	let n = CTR.fetch_add(1, std::sync::atomic::Ordering::Relaxed);
+	let dir = PathBuf::from(format!("/dev/shm/verif-work/tmp/vg-{}-{}", std::process::id(), n));
+	let _ = std::fs::remove_dir_all(&dir);
+	std::fs::create_dir_all(&dir)?;
+	for f in v["files"].as_array().context("files")? {
+		std::fs::write(dir.join(f["name"].as_str().context("name")?), file_text(f)?)?;
+	}
+	let listing: Vec<String> = std::fs::read_dir(&dir)?.map(|e| e.map(|e| e.file_name().to_string_lossy().to_string())).collect::<std::io::Result<_>>()?;
+	let r = run(&dir, v, &listing);
+	let _ = std::fs::remove_dir_all(&dir);
+	r
+}
+
+fn run(dir: &PathBuf, v: &Value, listing: &[String]) -> Result<Value> {
+	let g = match VersionGraph::resolve(dir) {
+		Ok(g) => g,
+		Err(_) => return Ok(json!({"done": true, "listing": listing, "resolve": false})),
+	};
+	let mut get = Map::new();
+	for n in v["lookups"].as_array().context("lookups")? {
+		let n = n.as_str().context("lookup")?;
+		get.insert(n.to_owned(), match g.get(n) {
+			Ok((split, e)) => json!({"ok": true, "v": [match split { Split::None => "none", Split::First => "first", Split::Second => "second" }, e.as_str()]}),
+			Err(_) => json!({"ok": false, "v": []}),
+		});
+	}
+	let mut depth = Map::new();
+	let mut apply = Map::new();
+	for e in g.versions() {
+		depth.insert(e.as_str().to_owned(), json!(e.depth()));
+		apply.insert(e.as_str().to_owned(), res_tree(g.apply_diffs(e)));
+	}
+	Ok(json!({"done": true, "listing": listing, "resolve": true, "get": get, "depth": depth, "apply": apply}))
+}
+
+/// Random version trees with edit histories along the edges: every version's mapping set is an edit of its parent's,
+/// the diff on the edge is the real diff of the two (contracted) sets; now and then a second parent (diamond whose
+/// paths agree by construction), an unreachable version, a stale diff (does not apply), split names.
+pub fn gen(seed: u64, n: usize) -> Result<Vec<Value>> {
+	let mut r = StdRng::seed_from_u64(seed ^ 0xC05);
+	let mut out = vec![];
+	'outer: while out.len() < n {
+		let cfg = TreeCfg { n: 2, classes: r.gen_range(1..8), p_missing: 0.0, unicode: r.gen_bool(0.2), ..TreeCfg::default() };
+		let mut a0 = gen_tree(&mut r, &cfg);
+		a0["ns"] = json!(["intermediary", "named"]);
+		// simple target names for nested classes (the diffs carry contracted names)
+		if let Some(Value::Object(k)) = a0.get_mut("kids") {
+			for (_, c) in k.iter_mut() {
+				let cur = c["names"][1].as_str().unwrap_or("").to_owned();
+				if c["names"][0].as_str().unwrap_or("").contains('$') && !cur.is_empty() {
+					c["names"][1] = json!(cur.rsplit('/').next().unwrap_or("x").replace('$', "_"));
+				}
+			}
+		}
+		let nv = r.gen_range(1..7usize);
+		let names: Vec<String> = (0..nv).map(|i| if r.gen_bool(0.3) { format!("c{i}~s{i}") } else { format!("v{i}") }).collect();
+		let mut trees: Vec<Value> = vec![a0.clone()];
+		let mut files: Vec<Value> = vec![];
+		let a0m: Mappings<2, Ns> = json_to_tree(&a0)?;
+		let Ok(root_ext) = a0m.extend_inner_class_names("named") else { continue };
+		files.push(json!({"name": format!("{}.tiny", names[0]), "tree": tree_to_json(&root_ext)}));
+		for i in 1..nv {
+			let p = r.gen_range(0..i);
+			let mut t = trees[p].clone();
+			for _ in 0..r.gen_range(0..3) { edit_tree(&mut r, &cfg, &mut t, 1, false); }
+			let (pm, cm): (Mappings<2, Ns>, Mappings<2, Ns>) = (json_to_tree(&trees[p])?, json_to_tree(&t)?);
+			let Ok(d) = MappingsDiff::diff(&pm, &cm) else { continue 'outer };
+			if r.gen_bool(0.1) && i > 1 {
+				// unreachable: the edge file is left out (the version is still named by a later child, if any)
+			} else {
+				files.push(json!({"name": format!("{}#{}.tinydiff", names[p], names[i]), "diff": diff_to_json(&d)}));
+			}
+			// a second parent with the matching diff: both paths give the same set
+			if i >= 2 && r.gen_bool(0.25) {
+				let q = (p + 1) % i;
+				let qm: Mappings<2, Ns> = json_to_tree(&trees[q])?;
+				if let Ok(d2) = MappingsDiff::diff(&qm, &cm) {
+					if q != p { files.push(json!({"name": format!("{}#{}.tinydiff", names[q], names[i]), "diff": diff_to_json(&d2)})); }
+				}
+			}
+			trees.push(t);
+		}
+		if r.gen_bool(0.1) && files.len() > 1 {
+			// stale diff: replace one edge's diff by another edge's
+			let i = r.gen_range(1..files.len());
+			let j = r.gen_range(1..files.len());
+			let dj = files[j]["diff"].clone();
+			files[i]["diff"] = dj;
+		}
+		if r.gen_bool(0.1) { files.push(json!({"name": "notes.txt"})); }
+		files.shuffle(&mut r);
+		let mut lookups: Vec<String> = names.iter().flat_map(|x| x.split('~').map(|s| s.to_owned()).collect::<Vec<_>>()).collect();
+		lookups.push("unknown".into());
+		lookups.push(names[0].clone());
+		out.push(json!({"op": "graph", "files": files, "lookups": lookups}));
+	}
+	Ok(out)
+}
